@@ -2,6 +2,7 @@
 // merge function, user-defined sources that invalidate old buffers, and the merged model.
 #pragma once
 #include "readcommon.h"
+#include <pthread.h>
 
 namespace vf {
 
@@ -39,10 +40,15 @@ struct MergeClos {
 static void concat_merge(void *clos, const uint8_t *key, size_t len_key, const uint8_t *v0, size_t l0, const uint8_t *v1, size_t l1,
                          uint8_t **merged, size_t *len_merged) {
   MergeClos *mc = (MergeClos *)clos;
-  mc->calls++;
-  if (mc->keep_log)
+  // pooled sorters call the merge function from several worker threads at once
+  long long my_call = __atomic_add_fetch(&mc->calls, 1, __ATOMIC_SEQ_CST);
+  if (mc->keep_log) {
+    static pthread_mutex_t mu = PTHREAD_MUTEX_INITIALIZER;
+    pthread_mutex_lock(&mu);
     mc->log.push_back({bytes((const char *)key, len_key), {bytes((const char *)v0, l0), bytes((const char *)v1, l1)}});
-  if (mc->fail_at >= 0 && mc->calls == mc->fail_at) {
+    pthread_mutex_unlock(&mu);
+  }
+  if (mc->fail_at >= 0 && my_call == mc->fail_at) {
     *merged = nullptr;
     *len_merged = 0;
     return;
